@@ -337,3 +337,65 @@ Proof.
   - intros [L HL]. destruct (HL v0 (or_introl eq_refl)) as [o0 [Ho0 He0]]. exists o0. split; [exact Ho0|].
     apply forallb_forall. intros v Hv. destruct (HL v Hv) as [o [Ho He]]. apply existsb_exists. exists o. split; [exact Ho|]. apply Nat.eqb_eq. lia.
 Qed.
+
+(* ------------------------------------------------------------------ nextFileIndex: the galloping search = the linear scan *)
+Definition nondecr (l : list nat) : Prop := forall i j, i <= j -> j < length l -> nth i l 0 <= nth j l 0.
+
+Lemma gallop_spec : forall fuel off f d ends, nondecr ends -> 1 <= d ->
+  (forall j, j < f -> j < length ends -> nth j ends 0 <= off) -> f <= length ends ->
+  2 * (length ends - f) + d < fuel ->
+  let r := gallop fuel off f d ends in
+  f <= r /\ r <= length ends /\ (forall j, j < r -> nth j ends 0 <= off) /\ (r < length ends -> off < nth r ends 0).
+Proof.
+  induction fuel as [|fu IH]; intros off f d ends Hnd Hd Hinv Hf Hfuel; [lia|].
+  simpl. destruct ((f <? length ends) && (nth f ends 0 <=? off)) eqn:E0.
+  - apply andb_true_iff in E0. destruct E0 as [E0a E0b].
+    destruct ((f + d <? length ends) && (nth (f + d) ends 0 <=? off)) eqn:E1.
+    + apply andb_true_iff in E1. destruct E1 as [E1a E1b].
+      assert (Hinv' : forall j, j < f + d -> j < length ends -> nth j ends 0 <= off).
+      { intros j Hj Hjl. pose proof (Hnd j (f + d) ltac:(lia) ltac:(lia)). lia. }
+      destruct (IH off (f + d) (d * 2) ends Hnd ltac:(lia) Hinv' ltac:(lia) ltac:(lia)) as [A [B [C D]]].
+      split; [lia|]. split; [exact B|]. split; [exact C | exact D].
+    + destruct (1 <? d) eqn:Ed.
+      * assert (d / 4 + 1 < d).
+        { assert (d / 4 <= d / 2) by (apply Nat.div_le_compat_l; lia). assert (d / 2 < d) by (apply Nat.div_lt; lia).
+          destruct (Nat.eq_dec d 2) as [->|]; [simpl; lia|]. destruct (Nat.eq_dec d 3) as [->|]; [simpl; lia|].
+          assert (4 <= d) by lia. assert (d / 4 * 4 <= d) by (rewrite Nat.mul_comm; apply Nat.mul_div_le; lia). lia. }
+        destruct (IH off f (d / 4 + 1) ends Hnd ltac:(lia) Hinv Hf ltac:(lia)) as [A [B [C D]]]. auto.
+      * assert (Hinv' : forall j, j < S f -> j < length ends -> nth j ends 0 <= off).
+        { intros j Hj Hjl. destruct (Nat.eq_dec j f) as [->|]; [lia | apply Hinv; lia]. }
+        destruct (IH off (S f) d ends Hnd Hd Hinv' ltac:(lia) ltac:(lia)) as [A [B [C D]]].
+        split; [lia|]. auto.
+  - split; [lia|]. split; [exact Hf|]. split.
+    + intros j Hj. apply Hinv; lia.
+    + intro Hr. apply andb_false_iff in E0. destruct E0; lia.
+Qed.
+
+Lemma find_end_spec : forall off ends j0,
+  let r := find_end off ends j0 in
+  j0 <= r /\ r <= j0 + length ends /\ (forall i, i < r - j0 -> nth i ends 0 <= off) /\ (r < j0 + length ends -> off < nth (r - j0) ends 0).
+Proof.
+  induction ends as [|e es IH]; intro j0; simpl.
+  - repeat split; try lia; intros; lia.
+  - destruct (e <=? off) eqn:E.
+    + destruct (IH (S j0)) as [A [B [C D]]]. split; [lia|]. split; [lia|]. split.
+      * intros i Hi. destruct i as [|i]; [lia|]. apply C. lia.
+      * intro Hr. replace (find_end off es (S j0) - j0) with (S (find_end off es (S j0) - S j0)) by lia. apply D. lia.
+    + repeat split; try lia; intros; try lia. replace (j0 - j0) with 0 by lia. simpl. lia.
+Qed.
+
+(** nextFileIndex(offset, f, ends) with its galloping steps returns the same index as the linear scan from 0 used by the
+    model's nextDoc, for sorted ends and any starting hint f below which all ends are <= offset *)
+Theorem next_file_index_linear : forall off f ends, nondecr ends -> f <= length ends ->
+  (forall j, j < f -> j < length ends -> nth j ends 0 <= off) ->
+  next_file_index off f ends = find_end off ends 0.
+Proof.
+  intros off f ends Hnd Hf Hinv. unfold next_file_index.
+  destruct (gallop_spec (2 * length ends + 3) off f 1 ends Hnd (le_n _) Hinv Hf ltac:(lia)) as [A [B [C D]]].
+  destruct (find_end_spec off ends 0) as [A' [B' [C' D']]]. simpl in B', C', D'.
+  set (r := gallop (2 * length ends + 3) off f 1 ends) in *. set (r' := find_end off ends 0) in *.
+  rewrite Nat.sub_0_r in *.
+  destruct (lt_eq_lt_dec r r') as [[Hlt|Heq]|Hgt]; [|exact Heq|].
+  - specialize (C' r Hlt). specialize (D ltac:(lia)). lia.
+  - specialize (C r' Hgt). specialize (D' ltac:(lia)). lia.
+Qed.
